@@ -38,7 +38,9 @@ CONSTANTS MaxTx,      \* behaviour length
           GasMode,    \* "all" (M: every representative gas outcome) | "one" (G: one outcome per class, no duplicates)
           Modes,      \* subset of {"process", "miner"}
           Prices,     \* e.g. {1, 2, 3}
-          KnownRefund,\* TRUE: search past the known finding C17/ChargedExactly/gas_refund, C17/PoolAccounting/gas_refund
+          KnownRefund,\* TRUE: search past the known findings (refund accounting; legacy gas of failed staking transactions before YouV4)
+          Versions,   \* protocol versions to run under, subset of 1..5
+          AllFull,    \* TRUE: every class combination under every version; FALSE: under versions < 5 only those with the next nonce
           GenMode     \* "none" | "leaf"
 
 VARIABLES nonce, bal,    \* per sender
@@ -48,9 +50,10 @@ VARIABLES nonce, bal,    \* per sender
           dead,          \* process mode: an error ended the block
           last,          \* property layer: the last step (tx, outcome, observables before)
           hist,
+          ver,           \* protocol version (YouV1..YouV5) of the block
           sig            \* signature part: the transaction object under resolution (its sender cache, the answers so far)
 
-vars == <<nonce, bal, pool, gu, gr, mode, dead, last, hist, sig>>
+vars == <<nonce, bal, pool, gu, gr, mode, dead, last, hist, ver, sig>>
 
 Senders == {1, 2}
 Bal0 == <<5000000, 60000>>     \* a1 rich, a2 poor
@@ -86,7 +89,8 @@ SeqCls == { C(1, "eq", "ample", "some", "acct", "none", 2),
             C(1, "eq", "below", "zero", "acct", "data", 1),
             C(1, "eq", "exact", "over1", "acct", "none", 1) }
 
-Cls == IF Alphabet = "full" THEN FullCls ELSE IF Alphabet = "sig" THEN {} ELSE SeqCls
+Cls == IF Alphabet = "full" THEN (IF ver = 5 \/ AllFull THEN FullCls ELSE { c \in FullCls : c.nc = "eq" })
+       ELSE IF Alphabet = "sig" THEN {} ELSE SeqCls
 
 \* ---------------------------------------------------------------- concretisation (the driver uses the same table)
 \* data sizes of the model's payloads (non-zero, zero bytes); the real payload sizes are logged by the driver
@@ -131,6 +135,18 @@ SenderAuthenticModel == \A m \in Mutations : (m = "none") <=> (Recover(m) = "sam
 ASSUME SenderAuthenticModel
 SigCls == { C(1, "eq", "ample", v, tp[1], tp[2], p) : v \in {"zero", "some"}, tp \in ToPay, p \in Prices }
 
+\* The V of a signature (YouSigner.Sender, transaction_signing.go:117, as coded): V = 27/28 is not replay protected; the
+\* network id derived from V, (V - 35) div 2, must be the signer's; what is left, V - 2*net - 8, is 27 or 28 and selects the
+\* recovery id.  Of all V values only the one the signature was made with yields the key holder; the other parity recovers
+\* another key.  RecoverV(net, v, orig) is the answer for V = v when the signature was made with V = orig.
+NetIds == {1, 2, 99}
+VRange(n) == 0..(2 * n + 40)
+RecoverV(n, v, orig) == IF v \in {27, 28} THEN "err"                             \* ErrNotProtected
+                        ELSE IF v < 35 \/ (v - 35) \div 2 # n THEN "err"        \* ErrInvalidNetworkId
+                        ELSE IF v = orig THEN "same" ELSE "other"
+OnlyOriginalV == \A n \in NetIds, par \in {0, 1} : \A v \in VRange(n) : (RecoverV(n, v, 35 + 2 * n + par) = "same") <=> (v = 35 + 2 * n + par)
+ASSUME OnlyOriginalV
+
 \* The sender CACHE inside the transaction object (types.Sender, transaction_signing.go:65): one decoded transaction
 \* object is resolved several times, under the signer of this network ("home") and under a signer for another network
 \* id ("foreign").  As coded: a cached (signer, address) pair answers when the cached signer Equals the asking one;
@@ -150,7 +166,7 @@ ResolveOn(s, sg) ==
 SigCases == IF Alphabet = "sig" THEN { c \in SigCls : c.price = 1 } ELSE {}
 SigNext == /\ \/ ~sig.on /\ \E c \in SigCases, m \in SeqMutations : sig' = NewObject(c, m)
               \/ sig.on /\ Len(sig.res) < MaxTx /\ \E sg \in Signers : sig' = ResolveOn(sig, sg)
-           /\ UNCHANGED <<nonce, bal, pool, gu, gr, mode, dead, last, hist>>
+           /\ UNCHANGED <<nonce, bal, pool, gu, gr, mode, dead, last, hist, ver>>
 \* property layer: "A transaction's sender is the holder of the key that signed exactly its fields for this network" --
 \* whatever was asked of the same object before: every answer is the answer a fresh derivation gives
 CacheTransparent ==
@@ -161,7 +177,7 @@ SenderAuthenticSeq ==
 \* ---------------------------------------------------------------- design layer
 Init == /\ nonce = Nonce0 /\ bal = Bal0 /\ pool = Pool0 /\ gu = 0 /\ gr = 0
         /\ mode \in Modes /\ dead = FALSE
-        /\ last = [kind |-> "none"] /\ hist = <<>> /\ sig = SigOff
+        /\ last = [kind |-> "none"] /\ hist = <<>> /\ sig = SigOff /\ ver \in Versions
 
 Pre == [nonce |-> nonce, bal |-> bal, pool |-> pool, gu |-> gu, gr |-> gr]
 
@@ -199,13 +215,20 @@ Error(t, c, reason, leak, bump) ==
            /\ nonce' = [nonce EXCEPT ![t.s] = @ + bump]
    /\ UNCHANGED <<gu, gr>>
 
+\* LegacyFailedStakingGas (staking/tx_converter.go:85,100): a failed staking action REPORTS the whole limit as gas used under
+\* every version, but only from YouV4 on is the available gas really consumed (`Version >= YouV4 => UseGas(AvailableGas)`);
+\* under YouV1..YouV3 the sender and the pool are charged the intrinsic gas only ("YouV4 fixes a bug on gas used for a failed
+\* staking-transaction", params/all_versions.go) -- kept as it is because the old blocks were made with it
+LegacyFailed(t, o) == t.to = "staking" /\ o.failed /\ ver < 4
 Applied(t, c, o) ==
-   LET moved == IF o.failed THEN 0 ELSE t.mv IN
-   /\ last' = [kind |-> "applied", tx |-> t, g |-> o.g, failed |-> o.failed, r |-> o.r, moved |-> moved, pre |-> Pre]
+   LET moved == IF o.failed THEN 0 ELSE t.mv
+       consumed == IF LegacyFailed(t, o) THEN t.intr ELSE o.g IN
+   /\ last' = [kind |-> "applied", tx |-> t, g |-> o.g, failed |-> o.failed, r |-> o.r, moved |-> moved, pre |-> Pre,
+               legacy |-> LegacyFailed(t, o) /\ t.limit > t.intr]
    /\ nonce' = [nonce EXCEPT ![t.s] = @ + 1]
-   \* GasUsedBeforeRefund: the receipt, the header and the rewards are charged o.g, the sender and the pool o.g - o.r
-   /\ bal' = [bal EXCEPT ![t.s] = @ - moved - (o.g - o.r) * t.price]
-   /\ pool' = pool - (o.g - o.r)
+   \* GasUsedBeforeRefund: the receipt, the header and the rewards are charged o.g, the sender and the pool consumed - o.r
+   /\ bal' = [bal EXCEPT ![t.s] = @ - moved - (consumed - o.r) * t.price]
+   /\ pool' = pool - (consumed - o.r)
    /\ gu' = gu + o.g
    /\ gr' = gr + o.g * t.price
    /\ UNCHANGED dead
@@ -226,7 +249,7 @@ ModelOutcomes(t) == UNION { { [g |-> o.g, failed |-> o.failed, r |-> r] : r \in 
 ApplyWith(t, c, Outs) ==
    /\ ~dead /\ Len(hist) < MaxTx
    /\ hist' = Append(hist, c)
-   /\ UNCHANGED <<mode, sig>>
+   /\ UNCHANGED <<mode, sig, ver>>
    /\ IF t.nonce # nonce[t.s] THEN Refuse(t, c, "nonce")                              \* preCheck: ErrNonceTooHigh / ErrNonceTooLow
       ELSE IF bal[t.s] < t.limit * t.price THEN Refuse(t, c, "funds")                 \* buyGas: errInsufficientBalanceForGas
       ELSE IF pool < t.limit THEN Refuse(t, c, "pool")                                \* GasPool.SubGas: ErrGasLimitReached
@@ -243,7 +266,7 @@ Spec == Init /\ [][Next]_vars
 
 \* ---------------------------------------------------------------- property layer
 \* (each clause quotes the sentence of the statement it restates)
-Cex(name) == PrintT("@@J " \o ToJson([kind |-> "CEX", clause |-> name, mode |-> mode, pool |-> Pool0, h |-> hist])) /\ FALSE
+Cex(name) == PrintT("@@J " \o ToJson([kind |-> "CEX", clause |-> name, mode |-> mode, pool |-> Pool0, ver |-> ver, h |-> hist])) /\ FALSE
 
 IsApplied == last.kind = "applied"
 UpFront == last.kind # "none" /\ LET t == last.tx p == last.pre IN
@@ -264,7 +287,7 @@ SufficientFunds ==
 \* "changes the sender's balance by exactly the value it transfers or stakes plus gas used times price"
 ChargedExactly ==
    IsApplied => \/ (LET t == last.tx IN bal[t.s] = last.pre.bal[t.s] - (last.moved + last.g * t.price))
-                \/ (KnownRefund /\ last.r > 0)
+                \/ (KnownRefund /\ (last.r > 0 \/ last.legacy))
                 \/ Cex("ChargedExactly")
 \* "with gas used between the intrinsic cost and the limit"
 GasWithinBounds ==
@@ -273,7 +296,7 @@ GasWithinBounds ==
 \* "every sequence of such applications within a block gas pool": the pool pays exactly the gas used
 PoolAccounting ==
    IsApplied => \/ (last.pre.pool >= last.tx.limit /\ pool = last.pre.pool - last.g /\ gu = last.pre.gu + last.g)
-                \/ (KnownRefund /\ last.r > 0)
+                \/ (KnownRefund /\ (last.r > 0 \/ last.legacy))
                 \/ Cex("PoolAccounting")
 \* the miner's wrapper: a transaction that was not applied leaves the accounts untouched
 RevertedUnchanged ==
@@ -281,12 +304,17 @@ RevertedUnchanged ==
 
 \* ---------------------------------------------------------------- generation
 Leaf == /\ (GenMode = "leaf" /\ (Len(hist) = MaxTx \/ dead) /\ Len(hist) > 0) =>
-              PrintT("@@J " \o ToJson([kind |-> "B", h |-> [kind |-> "apply", mode |-> mode, pool |-> Pool0, txs |-> hist]]))
+              PrintT("@@J " \o ToJson([kind |-> "B", h |-> [kind |-> "apply", mode |-> mode, pool |-> Pool0, ver |-> ver, txs |-> hist]]))
         /\ (GenMode = "sig" /\ hist = <<>> /\ mode = "miner") =>
               \A c \in SigCls : PrintT("@@J " \o ToJson([kind |-> "B", h |-> [kind |-> "sig", tx |-> c, muts |-> Mutations]]))
         \* resolution sequences on one object: every sequence of 1..MaxTx signers
         /\ (GenMode = "sigseq" /\ sig.on /\ Len(sig.res) > 0 /\ mode = "miner") =>
               PrintT("@@J " \o ToJson([kind |-> "B", h |-> [kind |-> "sigseq", tx |-> sig.cls, mut |-> sig.mut,
                                                             seq |-> [i \in DOMAIN sig.res |-> sig.res[i].signer]]]))
-View == <<nonce, bal, pool, gu, gr, mode, dead, last, sig>>
+        \* V sweep: every class, every network id, every V of the range
+        /\ (GenMode = "vsweep" /\ hist = <<>> /\ ~sig.on /\ mode = "miner") =>
+              \A c \in { x \in SigCls : x.price = 1 }, n \in NetIds :
+                 PrintT("@@J " \o ToJson([kind |-> "B", h |-> [kind |-> "vsweep", tx |-> c, net |-> n,
+                                                               vs |-> [i \in 1..(2 * n + 41) |-> i - 1]]]))
+View == <<nonce, bal, pool, gu, gr, mode, dead, last, ver, sig>>
 =============================================================================
